@@ -306,7 +306,8 @@ class C18(core.Check):
     chunk = 900
     required_buckets = {**{'alone:' + k: 3 for k in REWRITES}, 'all-together': 3, 'tab-after-mnemonic': 3,
                         'upper-register-in-brackets': 3, 'upper-register-indexed': 3, 'label-contains-mnemonic': 3,
-                        'joined>=2': 3, 'joined>=3': 3, 'label-in-front-of-local-reference': 3, 'corpus-example': 3, 'preprocessor-lines': 3, 'tab-after-directive-keyword': 3, 'quote-in-comment-after-quoted-statement': 3}
+                        'joined>=2': 3, 'joined>=3': 3, 'label-in-front-of-local-reference': 3, 'corpus-example': 3, 'preprocessor-lines': 3, 'tab-after-directive-keyword': 3, 'quote-in-comment-after-quoted-statement': 3,
+                        'include-line': 3, 'include-line:trailing-comments': 3}
 
     def corpus_cases(self, tier, seed):
         import os
@@ -347,8 +348,29 @@ class C18(core.Check):
             yield {'runs': runs, 'meta': {'kinds': [['corpus-safe-rewrites']] * 3, 'vtags': [['corpus-example']] * 3,
                                           'mns': [os.path.basename(srcp)]}, 'tags': []}
 
+    def include_line_cases(self):
+        """the listed rewrites applied to a line that pulls in another file: it is a line like any other"""
+        isa = c18_isa('big')
+        fn, itext = isamod.render_isa(isa, 'json')
+        inc = 'inc_data:\n.byte $21, $22\n'
+        for k_, body in enumerate((['.byte $11', '{INC}', '.2byte inc_data', '.byte $31'],
+                                   ['main: nop', '{INC}', 'jmp inc_data'],
+                                   ['{INC}', 'ldi BYTE0(inc_data)'])):
+            forms = [(['trailing-comments'], '#include "inc.asm" ; pulled in here'), (['trailing-comments'], '#include "inc.asm";c'),
+                     (['trailing-comments'], '#include "inc.asm" ; a "quoted" remark'), (['trailing-comments'], '#include "inc.asm"\t; tab before'),
+                     (['gap-in-directive'], '#include   "inc.asm"'), (['gap-in-directive'], '#include\t"inc.asm"'),
+                     (['indentation'], '  #include "inc.asm"'), (['indentation'], '\t#include "inc.asm"'),
+                     (['gap-in-directive', 'trailing-comments', 'indentation'], ' #include \t "inc.asm"  ;  c'),
+                     (['blank-lines'], '\n#include "inc.asm"\n'), (['full-line-comments'], '; next: the data\n#include "inc.asm"\n; done')]
+            mk = lambda line: {'files': {fn: itext, 'inc.asm': inc, 'p.asm': '\n'.join(l_.replace('{INC}', line) for l_ in body) + '\n'},   # noqa
+                               'argv': ['compile', '-c', fn, 'p.asm', '-o', 'out.bin'], 'probes': ['steps'], 'step_limit': 600000}
+            yield {'runs': [mk('#include "inc.asm"')] + [mk(f_) for _, f_ in forms],
+                   'meta': {'kinds': [ks_ for ks_, _ in forms], 'vtags': [['include-line', 'include-line:' + '+'.join(ks_)] for ks_, _ in forms],
+                            'mns': ['#include']}, 'tags': []}
+
     def cases(self, tier, seed):
         yield from self.corpus_cases(tier, seed)
+        yield from self.include_line_cases()
         n_pre = 120
         n = 150 if tier == 'quick' else 3000
         k_var = 4 if tier == 'quick' else 16
